@@ -5,7 +5,7 @@ from props.asm_common import family_cases, oracle
 
 PID = "C13"
 LEAN_TARGETS = ["EtkVerif.Props.C13"]
-RULE = ("well-formed programs of every generator family (layout, operators, ranges, instruction macros, expression macros; backward "
+RULE = ("[family `provisional`: fixed-width operands over backward labels whose distance grows after they were read, in/out of range at exactly one of the two distances] well-formed programs of every generator family (layout, operators, ranges, instruction macros, expression macros; backward "
         "and forward references, also mixed within one operand) and the same programs with one injected fault out of 12 kinds "
         "(undefined label bare / in a compound operand, duplicate label, unknown instruction / expression macro, duplicate macro "
         "name across kinds, arity mismatch, division by zero, too-large and negative operands, unbound variable, self-recursive "
@@ -18,7 +18,7 @@ ASSUMPTIONS = ["when several faults are present any one of them is an acceptable
 
 def cases(rng, tier):
     n = 90 if tier == "quick" else 1500
-    fams = [("layout", G.gen_layout), ("exprs", G.gen_exprs), ("range", G.gen_range), ("macros", G.gen_macros),
+    fams = [("layout", G.gen_layout), ("exprs", G.gen_exprs), ("range", G.gen_range), ("provisional", G.gen_provisional), ("macros", G.gen_macros),
             ("emacros", G.gen_emacros), ("autopush", G.gen_autopush)]
     return family_cases(rng, fams, n, faults=0.7)
 
